@@ -33,6 +33,7 @@ type COp struct {
 	Val  uint64 `json:"val,omitempty"`
 	Src  int    `json:"src,omitempty"`
 	Text string `json:"text,omitempty"`
+	Raw  []byte `json:"raw,omitempty"` // insert: bytes that are not valid UTF-8 (a JSON string would not carry them)
 }
 
 // Apply returns the damaged image.
@@ -78,7 +79,11 @@ func Apply(base []byte, ops []COp) []byte {
 			blk := append([]byte{}, d[pos:end]...)
 			d = append(d[:end], append(blk, d[end:]...)...)
 		case "insert":
-			d = append(d[:pos], append([]byte(op.Text), d[pos:]...)...)
+			ins := []byte(op.Text)
+			if len(op.Raw) > 0 {
+				ins = op.Raw
+			}
+			d = append(d[:pos], append(append([]byte{}, ins...), d[pos:]...)...)
 		case "random":
 			r := core.NewRand(op.Val)
 			d = make([]byte, op.Len)
@@ -200,9 +205,13 @@ func ChildMain() int {
 	// the child with exit code 77, which the parent attributes to the input in flight.)
 	var mu sync.Mutex
 	inFlight := false
+	parent := os.Getppid()
 	go func() {
 		for {
 			time.Sleep(25 * time.Millisecond)
+			if os.Getppid() != parent {
+				os.Exit(3) // the worker is gone (killed by a watchdog or by the user): do not spin on as an orphan
+			}
 			var ms runtime.MemStats
 			runtime.ReadMemStats(&ms)
 			if ms.HeapAlloc > 3<<30 || ms.Sys > 64<<30 {
